@@ -25,7 +25,7 @@ from typing import Any, Callable, Iterable, Sequence
 VERIF = Path(__file__).resolve().parent.parent
 LEAN = VERIF / "lean"
 REPO = Path(os.environ.get("VERIF_REPO", "/repo"))
-EVIDENCE = VERIF / "evidence"
+EVIDENCE = Path(os.environ.get("VERIF_EVIDENCE_DIR") or (VERIF / "evidence"))
 REPLAYS = VERIF / "replays"
 ALLOWED_AXIOMS = {"propext", "Classical.choice", "Quot.sound"}
 FORBIDDEN_RE = re.compile(
@@ -385,7 +385,7 @@ class Run:
         return a
 
     def write_evidence(self) -> None:
-        EVIDENCE.mkdir(exist_ok=True)
+        EVIDENCE.mkdir(parents=True, exist_ok=True)
         cov = dict(self.coverage)
         cov.setdefault("samples", self.samples or cov.get("samples") or [])
         if not cov["samples"]:
